@@ -39,6 +39,45 @@ def _gen_handoff(ctx, cfg, simulate=None, depth=None, seed=None):
     return vlib.parse_sim_behaviours(r.out)
 
 
+def _build(ctx):
+    """ctx.build("clusterops"), skipped when an identical build exists: the key covers the harness sources and the exact state of the
+    tree under test (HEAD, diff, untracked files), so a mutated worktree always rebuilds.  Linking alone takes 1-2 min on the loaded box."""
+    import hashlib, subprocess, glob, shutil
+    h = hashlib.sha1()
+    repo = vlib.REPO
+    try:
+        for cmd in (["git", "-C", repo, "rev-parse", "HEAD"], ["git", "-C", repo, "diff", "HEAD"], ["git", "-C", repo, "ls-files", "-o", "--exclude-standard"]):
+            out = subprocess.run(cmd, stdout=subprocess.PIPE, stderr=subprocess.DEVNULL, timeout=120, check=True).stdout
+            h.update(out)
+            if cmd[3] == "ls-files":
+                for f in out.decode().split():
+                    with open(os.path.join(repo, f), "rb") as fh:
+                        h.update(fh.read())
+    except Exception:
+        return ctx.build("clusterops")
+    hdir = os.path.join(vlib.VERIF, "harness")
+    for f in sorted(glob.glob(os.path.join(hdir, "cmd", "clusterops", "*.go")) + glob.glob(os.path.join(hdir, "sched", "*.go"))
+                    + glob.glob(os.path.join(hdir, "vtrace", "*.go")) + [os.path.join(hdir, "go.mod"), os.path.join(hdir, "go.sum")]):
+        with open(f, "rb") as fh:
+            h.update(f.encode() + fh.read())
+    bindir = os.path.join(vlib.VERIF, ".bin")
+    cached = os.path.join(bindir, "clusterops-cache-" + h.hexdigest()[:16])
+    if os.path.exists(cached):
+        ctx.log("harness binary unchanged (cached build)")
+        return cached
+    exe = ctx.build("clusterops")
+    old = sorted(glob.glob(os.path.join(bindir, "clusterops-cache-*")), key=os.path.getmtime)
+    for f in old[:-5]:
+        try:
+            os.remove(f)
+        except OSError:
+            pass
+    tmp = cached + ".tmp%d" % os.getpid()
+    shutil.copy(exe, tmp)
+    os.replace(tmp, cached)
+    return cached
+
+
 def _parallel(jobs, width=3):
     """run thunks side by side (TLC start-up dominates small runs); results in order, first exception re-raised."""
     with ThreadPoolExecutor(max_workers=width) as ex:
@@ -60,7 +99,7 @@ def run_c35(ctx, pid):
     genjobs = [lambda: _gen_handoff(ctx, "Gen_Handoff.cfg" if quick else "Gen_Handoff_t.cfg"),
                lambda: _gen_handoff(ctx, "Gen_Handoff_long.cfg"),
                lambda: _gen_handoff(ctx, "Sim_Handoff.cfg", simulate="num=%d" % (300 if quick else 3000), depth=100)]
-    res = _parallel([lambda: ctx.build("clusterops")] + mcjobs + genjobs, width=4 if quick else 3)
+    res = _parallel([lambda: _build(ctx)] + mcjobs + genjobs, width=4 if quick else 3)
     exe, mcs, (exh, lng, sim) = res[0], res[1:1 + len(mcjobs)], res[1 + len(mcjobs):]
     ctx.log("design: %s distinct states, budget / async / retryable invariants hold" % "+".join(str(m.distinct) for m in mcs))
     if len(exh) < 1000 or len(lng) < 100 or len(sim) < 50:
@@ -158,10 +197,35 @@ def _opkey(b):
     return json.dumps([[o["op"], o["ref"], o["arg"]] for o in b])
 
 
+def _longstall_run(ctx, exe):
+    """the schedule Claim.tla excludes by its NoLongStall assumption, in real time (about one claim TTL = 60 s)."""
+    try:
+        trace = ctx.tmp("longstall-trace.ndjson")
+        p = ctx.run([exe, "sched-longstall", trace], timeout=400)
+        return (trace, json.loads(p.stdout.strip().splitlines()[-1]))
+    except Exception as e:        # re-raised by the caller on the main thread
+        return e
+
+
+def _longstall_judge(ctx, trace, stats):
+    rows = vlib.read_ndjson(trace)
+    mon = ctx.tlc("Scheduler", "Trace_ClaimMon.cfg", dfs=True, files={"trace.ndjson": trace}, timeout=600, name="Trace_ClaimMon-longstall")
+    if mon.depth != len(rows) + 1:
+        raise vlib.Infra("monitor did not consume the long-stall trace")
+    mism = _mismatches(mon)
+    conf = ctx.tlc("Scheduler", "Trace_Claim_longstall.cfg", module="Trace_Claim", dfs=True, files={"trace.ndjson": trace}, timeout=600, expect_fail=True)
+    ops = [(r.get("op"), r.get("n"), r.get("r")) for r in rows]
+    # witness of the recorded finding: n2 checked fresh, the claim expired while n2 was before its claim, n2 won
+    witness = ("Check", "n2", "fresh") in ops and ("Expire", "", None) in ops and ("Claim", "n2", "won") in ops \
+        and ops.index(("Check", "n2", "fresh")) < ops.index(("Expire", "", None)) < ops.index(("Claim", "n2", "won"))
+    return {"double": any(m[2] == "tick-delivered-twice" for m in mism), "witness": witness, "outcome": stats["outcome"], "wall_s": stats["wall_s"],
+            "accepted_by_Claim_with_LongStall": conf.depth == len(rows) + 1 and not conf.violated and not conf.error}
+
+
 def run_c19(ctx, pid):
     quick = ctx.quick
     S = "Scheduler"
-    jobs = [lambda: ctx.build("clusterops"),
+    jobs = [lambda: _build(ctx),
             lambda: ctx.tlc_must_hold(S, "MC_Sched.cfg" if quick else "MC_Sched_t2.cfg", module="MC_Sched", deadlock_check=False, timeout=2400, workers=2 if quick else 4),
             lambda: ctx.tlc_must_hold(S, "MC_Claim.cfg" if quick else "MC_Claim_t.cfg", module="MC_Claim", deadlock_check=False, timeout=2400, workers=2 if quick else 4),
             lambda: _gen(ctx, S, "Gen_Claim.cfg", "Gen_Claim"),
@@ -198,6 +262,14 @@ def run_c19(ctx, pid):
     rest = [b for b in sbeh if b not in rich] if len(sbeh) < 5000 else [b for b in sbeh if not (any(o["op"] in ("Once", "Every") for o in b) and sum(o["ref"] == "g" for o in b) == 0)]
     sbeh = vlib.sample(ctx.rng, rich, 1000 if quick else 6000) + vlib.sample(ctx.rng, rest, 200 if quick else 1000)
     cfile, sfile = ctx.tmp("claim-behaviours.ndjson"), ctx.tmp("sched-behaviours.ndjson")
+    lsbox = {}
+    if not quick or os.environ.get("VERIF_LONGSTALL") == "1":
+        # the one-minute real-time scenario runs next to everything else
+        import threading
+        lsthread = threading.Thread(target=lambda: lsbox.update(r=_longstall_run(ctx, exe)))
+        lsthread.start()
+    else:
+        lsthread = None
     vlib.write_ndjson(cfile, cbeh)
     vlib.write_ndjson(sfile, sbeh)
     ctx.log("behaviours: claim race %d (exhaustive %d), operation sequences %d of %d" % (len(cbeh), len(cexh), len(sbeh), nseq))
@@ -208,6 +280,12 @@ def run_c19(ctx, pid):
                         lambda: ctx.run([exe, "sched-time", sfile, strace], timeout=1200)], width=1)
     cstats = json.loads(pc.stdout.strip().splitlines()[-1])
     sstats = json.loads(ps.stdout.strip().splitlines()[-1])
+    longstall = None
+    if lsthread is not None:
+        lsthread.join()
+        if isinstance(lsbox.get("r"), Exception):
+            raise lsbox["r"]
+        longstall = _longstall_judge(ctx, *lsbox["r"])
     crows, srows = vlib.read_ndjson(ctrace), vlib.read_ndjson(strace)
 
     cmon, smon, cconf, sconf = _parallel([
@@ -237,6 +315,12 @@ def run_c19(ctx, pid):
                 known.append(m)
                 continue
         real.append(m)
+    if longstall and longstall["double"]:
+        if longstall["witness"] and ctx.is_known("StaleCheckThenClaim"):
+            ctx.report_known("StaleCheckThenClaim", "a node lagging almost one claim TTL passes the staleness check, stalls across the expiry of the "
+                             "first claim and wins the same cron tick again: the tick is delivered twice (real-time scenario, %.0f s)" % longstall["wall_s"])
+        else:
+            real.append([0, 0, "tick-delivered-twice (long stall scenario)", 1, 2])
     if known:
         ctx.report_known("OnceResumeLost", "ScheduleOnce, PauseSchedule, ResumeSchedule: ResumeSchedule fails with 'trigger has expired' and the "
                          "message is never delivered (%d behaviours)" % len(known))
@@ -255,6 +339,7 @@ def run_c19(ctx, pid):
         "events_validated": len(crows) + len(srows), "scheduling_jitter_us": sstats["jitter_us"],
         "disturbed_schedules_not_judged": int(dist[-1][0]) if dist else 0,
         "conformance_drift": "; ".join(drift) or None, "monitor_mismatches": len(cmism) + len(real), "known_finding_hits": len(known),
+        "long_stall_scenario": longstall,
     }
     assumptions = ["quartz is a black box: assumed (and checked on every trace: fired-early) to start a firing not before its trigger time; a schedule whose "
                    "firings come in catch-up bursts (two starts less than half an interval apart, a stalled machine) is not judged for "
@@ -282,7 +367,7 @@ def run_c19(ctx, pid):
 def run_c33(ctx, pid):
     quick = ctx.quick
     R = "Relocation"
-    res = _parallel([lambda: ctx.build("clusterops"),
+    res = _parallel([lambda: _build(ctx),
                      lambda: ctx.tlc_must_hold(R, "MC_Run.cfg" if quick else "MC_Run_t.cfg", module="MC_Run", deadlock_check=False, timeout=2400, workers=2 if quick else 4),
                      lambda: _gen(ctx, R, "Gen_Run.cfg", "Gen_Run"),
                      lambda: _gen(ctx, R, "Sim_Run.cfg", "Gen_Run", simulate="num=%d" % (40 if quick else 300), depth=60)], width=4)
